@@ -709,6 +709,17 @@ def oracle_norm(ctx, wu, case):
     b = (j.scheme, j.hostname, j.port, j.path, j.query)
     if a != b:
         ctx.fail('reparse-differs', 'components', cj, '%r: %r != %r' % (n, a, b))
+    # an independent splitter (urllib.parse.urlsplit, which wpull.path and others apply to the normal form) must accept
+    # the normal form and find the same host and port: no delimiter may sit unescaped inside a component
+    import urllib.parse
+    try:
+        sp = urllib.parse.urlsplit(n)
+        got = (sp.hostname, sp.port if sp.port is not None else NET[i.scheme])
+    except ValueError as e:
+        got = 'ValueError: %s' % e
+    want = (i.hostname, i.port)
+    if got != want and not (isinstance(got, tuple) and got[1] == want[1] and (got[0] or '') == want[0].lower()):
+        ctx.fail('urlsplit-differs', 'url', cj, 'urllib.parse.urlsplit(%r) gives %r, the parser %r' % (n, got, want))
     if case.encoding != 'utf-8':
         # the stricter reading: normalise again with the SAME document encoding
         try:
@@ -809,7 +820,7 @@ def gen_query(rng):
     return rng.choice('&&&;').join(parts)
 
 
-USERINFO_POOL = ['u', 'user', 'U%73er', 'a%3Ab', 'a%40b', 'é', '%e9', '%C3%a9', 'a b', 'a+b', '%2F', 'x%', '%ff', '',
+USERINFO_POOL = ['[u', '[x]', 'a]b', '[', ']', '[::1]', 'u[', '%5Bx%5d', 'u', 'user', 'U%73er', 'a%3Ab', 'a%40b', 'é', '%e9', '%C3%a9', 'a b', 'a+b', '%2F', 'x%', '%ff', '',
                  # a decoded literal '%': %25XX, %25, lone '%', nested
                  '%2541', 'user%2541', '%25', '%25%25', 'a%25zz', '%252F', '%25%32%35', '%2525', '%', '%%', '%4', 'a%', '%2', '%25e9',
                  # escapes that are not UTF-8 (latin-1 / shift_jis bytes), truncated and over-long sequences
